@@ -114,7 +114,7 @@ PROPS = {
     },
     "C12": {
         "families": [
-            fam("transparent", g(gen.fam_transparent), 200, 6000, view="meta", rule="distinct (program, set of edit kinds) with at least one edit: operand -> clone, drop after last use, re-bind, pass from a clone"),
+            fam("transparent", g(gen.fam_transparent), 400, 8000, view="meta", rule="distinct (program, set of edit kinds) with at least one edit: operand -> clone, drop after last use, re-bind, pass from a clone"),
         ],
         "assumptions": [F64_NOTE, SEED_NOTE],
     },
